@@ -24,12 +24,15 @@ func metaHdrs(meta string) []s3c.KV {
 	for _, c := range meta {
 		n += int(c)
 	}
-	return []s3c.KV{{K: "x-amz-meta-gen", V: meta}, {K: fmt.Sprintf("x-amz-meta-x%d", n%3), V: "of-" + meta}}
+	return []s3c.KV{{K: "x-amz-meta-gen", V: meta}, {K: fmt.Sprintf("x-amz-meta-x%d", n%3), V: "of-" + meta}, {K: "x-amz-tagging", V: "t=" + meta}}
 }
 
 func wantSet(meta string) string {
 	var out []string
 	for _, kv := range metaHdrs(meta) {
+		if kv.K == "x-amz-tagging" {
+			continue
+		}
 		out = append(out, kv.K+"="+kv.V)
 	}
 	sort.Strings(out)
@@ -207,6 +210,23 @@ func execA(c caseA) (st stats, err error) {
 		if len(st) == 0 || st[0].Marker {
 			if r.Status != 404 {
 				return fmt.Errorf("%s: %q has no current version (stack %s) but GET answers %d (%q...)", where, keyNames[k], show(st), r.Status, trunc(r.Body))
+			}
+			// the key reads as missing through its sub-resources as well: HEAD, tag set, attributes
+			for _, q := range []struct {
+				m, sub string
+				h      []s3c.KV
+			}{{"HEAD", "", nil}, {"GET", "tagging", nil}, {"GET", "attributes", []s3c.KV{{K: "x-amz-object-attributes", V: "ETag,ObjectSize"}}}} {
+				var qq []s3c.KV
+				if q.sub != "" {
+					qq = s3c.Q(q.sub, "")
+				}
+				sr, err := cl.Call(q.m, path(k), qq, q.h, nil)
+				if err != nil {
+					return fmt.Errorf("SETUP: transport: %v", err)
+				}
+				if sr.Status/100 == 2 {
+					return fmt.Errorf("%s: %q has no current version (stack %s; GET answers 404) but %s ?%s answers %d (%q...)", where, keyNames[k], show(st), q.m, q.sub, sr.Status, trunc(sr.Body))
+				}
 			}
 			return nil
 		}
